@@ -114,6 +114,16 @@ func genSelector(c *Ctx) {
 			emit("sel/index", ".["+a+"]?", conts)
 		}
 	}
+	// two slice segments in a row (and separated by another segment), each with its own bounds
+	sb := []string{"1:", ":-1", "1:3", "-3:", ":2", "2:1"}
+	wrap := []datamodel.Node{J(`[1,2,3,4,5,6]`), J(`"aébcdé"`), J(`{"/":{"bytes":"AQIDBAUG"}}`), J(`[[1,2,3,4],[5,6,7,8],[9,10,11,12]]`)}
+	for _, a := range sb {
+		for _, b := range sb {
+			emit("sel/slice2", ".["+a+"]["+b+"]", wrap)
+			emit("sel/slice2", ".["+a+"][0]["+b+"]", wrap)
+			emit("sel/slice2", ".["+a+"][]["+b+"]?", wrap)
+		}
+	}
 	_ = math.MaxInt
 	// random longer selectors
 	n := 3000
